@@ -30,8 +30,8 @@ ASSUMPTIONS = ["schedule coverage = the interleavings the delay plans and forced
 
 
 def plan(tier):
-    return {"cases": 96 if tier == "quick" else 600, "shards": 16, "parallel": 12,
-            "shard_budget_s": 500 if tier == "quick" else 3000, "watchdog_s": 1200 if tier == "quick" else 4000}
+    return {"cases": 96 if tier == "quick" else 1200, "shards": 16, "parallel": 12,
+            "shard_budget_s": 500 if tier == "quick" else 3300, "watchdog_s": 1200 if tier == "quick" else 4500}
 
 
 def required(tier):
